@@ -145,26 +145,23 @@ Qed.
 (* the directory cleaned for level l' is the directory of the tiles of level l exactly when l' = l *)
 Lemma level_dir_hits lay l' l d d' :
   level_dir lay l' = Some d -> tile_dir lay l = Some d' ->
-  (lay = LTms -> 10 <= l) ->
   dname_eqb d d' = (l' =? l).
 Proof.
-  intros H1 H2 Ht. destruct lay; cbn in H1, H2; inversion H1; inversion H2; subst; cbn [dname_eqb]; try reflexivity.
-  specialize (Ht eq_refl). destruct (l' =? l) eqn:E; [|reflexivity].
-  apply Z.eqb_eq in E; subst. cbn [andb]. apply Z.leb_le; exact Ht.
+  intros H1 H2. destruct lay; cbn in H1, H2; inversion H1; inversion H2; subst; reflexivity.
 Qed.
 
 Lemma dir_layout_tile_dir lay l d : level_dir lay l = Some d -> exists d', tile_dir lay l = Some d'.
 Proof. destruct lay; cbn; intros H; try discriminate; eexists; reflexivity. Qed.
 
 Lemma removed_dir_spec b q msize t walked e :
-  strategy b t = SDir -> is_tile e = true -> dim_visible b e = true -> level_dir_named b e = true ->
+  strategy b t = SDir -> is_tile e = true -> dim_visible b e = true ->
   removed_by b q msize t walked e
   = spec_removed (older_dir (t_T t)) (t_levels t) (t_all t) everywhere msize e.
 Proof.
-  intros S Ht Hd Hn. unfold removed_by; rewrite S.
+  intros S Ht Hd. unfold removed_by; rewrite S.
   destruct (strategy_dir_layout b t S) as [lay [-> Hlay]].
   unfold spec_removed, is_tile in *. destruct (e_place e) as [dim l x y| | |] eqn:P; try discriminate.
-  unfold dim_visible in Hd; rewrite P in Hd. unfold level_dir_named in Hn; rewrite P in Hn.
+  unfold dim_visible in Hd; rewrite P in Hd.
   unfold everywhere. rewrite andb_true_r.
   rewrite <- (existsb_eqb_and l (t_all t || older_dir (t_T t) (e_mtime e)) (t_levels t)).
   apply existsb_ext'; intros l' _.
@@ -172,9 +169,7 @@ Proof.
   destruct (dir_layout_tile_dir lay l' d Hd') as [dt0 _].
   assert (exists d', tile_dir lay l = Some d') as [d' Hd''] by (destruct lay; cbn in Hd' |- *; try discriminate; eexists; reflexivity).
   unfold dir_removes, in_top, top_dir, is_tile. rewrite P. cbn [tile_top]. rewrite Hd'', Hd. cbn [andb negb orb].
-  rewrite (level_dir_hits lay l' l d d' Hd' Hd'').
-  - reflexivity.
-  - intros ->. apply Z.leb_le. exact Hn.
+  rewrite (level_dir_hits lay l' l d d' Hd' Hd''). reflexivity.
 Qed.
 
 Lemma strategy_cache_backend b t : strategy b t = SCache -> has_remove_level b = true.
@@ -259,12 +254,11 @@ Qed.
 
 Lemma dir_remaining b q msize t walked c :
   strategy b t = SDir ->
-  (forall e, In e c -> is_tile e = true -> dim_visible b e = true /\ level_dir_named b e = true) ->
+  (forall e, In e c -> is_tile e = true -> dim_visible b e = true) ->
   filter is_tile (cleanup_task b q msize t walked c)
   = filter is_tile (spec_remaining (older_dir (t_T t)) (t_levels t) (t_all t) everywhere msize c).
 Proof.
-  intros S H. apply remaining_eq. intros e He Ht. destruct (H e He Ht) as [Hd Hn].
-  apply removed_dir_spec; assumption.
+  intros S H. apply remaining_eq. intros e He Ht. apply removed_dir_spec; auto.
 Qed.
 
 Lemma cache_remaining b q msize t walked c :
@@ -305,7 +299,7 @@ Proof.
   intros H1 H2 E. destruct lay; cbn in H1, H2; inversion H1; inversion H2; subst; cbn [dname_eqb] in E.
   - apply Z.eqb_eq; exact E.
   - apply Z.eqb_eq; exact E.
-  - apply andb_true_iff in E. destruct E as [E _]. apply Z.eqb_eq; exact E.
+  - apply Z.eqb_eq; exact E.
   - apply Z.eqb_eq; exact E.
 Qed.
 
@@ -475,19 +469,18 @@ Lemma dir_walk_agree lay q msize levels T all walked c :
   strategy (BFile lay) (mkTask levels T all true false) = SDir ->
   0 < q ->
   (forall e, In e c -> is_tile e = true ->
-     dim_visible (BFile lay) e = true /\ level_dir_named (BFile lay) e = true
-     /\ 0 <= e_mtime e /\ e_mtime e / q <> T / q) ->
+     dim_visible (BFile lay) e = true /\ 0 <= e_mtime e /\ e_mtime e / q <> T / q) ->
   (forall e dim l x y, In e c -> e_place e = PTile dim l x y ->
      mem_coord (main_tile msize (x, y, l)) walked = memZ l levels && everywhere (main_tile msize (x, y, l))) ->
   filter is_tile (cleanup_task (BFile lay) q msize (mkTask levels T all true false) [] c)
   = filter is_tile (cleanup_task (BFile lay) q msize (mkTask levels T all false false) walked c).
 Proof.
   intros S Hq H Hw.
-  rewrite (dir_remaining _ q msize _ [] c S); [| intros e He Ht; destruct (H e He Ht) as [A [B _]]; auto].
+  rewrite (dir_remaining _ q msize _ [] c S); [| intros e He Ht; destruct (H e He Ht) as [A _]; exact A].
   rewrite (walk_remaining (BFile lay) q msize (mkTask levels T all false false) walked everywhere c);
     [| reflexivity | exact Hw | intros e He Ht; destruct (H e He Ht) as [A _]; exact A].
   cbn [t_T t_levels t_all]. apply spec_remaining_agree. intros e He Ht.
-  destruct (H e He Ht) as [_ [_ [Hm Hne]]]. cbn [seen_ts].
+  destruct (H e He Ht) as [_ [Hm Hne]]. cbn [seen_ts].
   destruct (older_agree q T (e_mtime e) Hq Hm Hne) as [A [B _]]. rewrite A, B. reflexivity.
 Qed.
 
@@ -546,41 +539,43 @@ Qed.
 
 (* ------------------------------------------------------------------ configuration guard *)
 
-Lemma conf_tasks_guard init w s bs i T all b :
-  nth_error (conf_tasks init w s bs) i = Some (Some (T, all)) -> nth_error bs i = Some b ->
-  supports_timestamp b = true \/ all = true.
+Lemma supports_is_stores b : supports_timestamp b = stores_timestamp b.
+Proof. destruct b; reflexivity. Qed.
+
+(* what the loader decides for the cache at position i: remove_all iff configured or the cache keeps no timestamps *)
+Lemma conf_tasks_nth init w all0 bs i T all b :
+  nth_error (conf_tasks init w all0 bs) i = Some (Some (T, all)) -> nth_error bs i = Some b ->
+  all = all0 || negb (supports_timestamp b).
 Proof.
-  revert s i; induction bs as [|b0 bs IH]; intros s i H Hb; [destruct i; discriminate|].
+  revert i; induction bs as [|b0 bs IH]; intros i H Hb; [destruct i; discriminate|].
   cbn [conf_tasks] in H. unfold conf_step in H.
   destruct (supports_timestamp b0) eqn:Sb.
   - destruct i as [|i]; cbn in H, Hb.
-    + inversion Hb; subst. left; exact Sb.
-    + apply (IH s i H Hb).
+    + inversion Hb; inversion H; subst. rewrite Sb. cbn. rewrite orb_false_r. reflexivity.
+    + apply (IH i H Hb).
   - destruct w as [|T0|].
-    + destruct i as [|i]; cbn in H, Hb; [inversion H; right; reflexivity | apply (IH true i H Hb)].
+    + destruct i as [|i]; cbn in H, Hb; [inversion H; inversion Hb; subst; rewrite Sb; apply eq_sym, orb_true_r | apply (IH i H Hb)].
     + destruct i as [|i]; cbn in H; [discriminate | destruct i; discriminate].
-    + destruct i as [|i]; cbn in H, Hb; [inversion H; right; reflexivity | apply (IH true i H Hb)].
+    + destruct i as [|i]; cbn in H, Hb; [inversion H; inversion Hb; subst; rewrite Sb; apply eq_sym, orb_true_r | apply (IH i H Hb)].
 Qed.
 
-(* when every cache keeps timestamps, remove_all is what the user configured *)
-Lemma conf_tasks_no_leak init w bs i T all :
-  (forall b, In b bs -> supports_timestamp b = true) ->
-  nth_error (conf_tasks init w (conf_all w) bs) i = Some (Some (T, all)) -> all = conf_all w.
+(* premise of cache_remaining: a task the loader yields has remove_all unless the backend stores timestamps *)
+Lemma conf_tasks_guard init w all0 bs i T all b :
+  nth_error (conf_tasks init w all0 bs) i = Some (Some (T, all)) -> nth_error bs i = Some b ->
+  stores_timestamp b = true \/ all = true.
 Proof.
-  generalize (conf_all w) as s. intros s. revert i; induction bs as [|b0 bs IH]; intros i Hs H; [destruct i; discriminate|].
-  cbn [conf_tasks] in H. unfold conf_step in H. rewrite (Hs b0 (or_introl eq_refl)) in H.
-  destruct i as [|i]; cbn in H; [inversion H; reflexivity|].
-  apply (IH i); [intros b Hb; apply Hs; right; exact Hb | exact H].
+  intros H Hb. rewrite (conf_tasks_nth init w all0 bs i T all b H Hb), <- supports_is_stores.
+  destruct (supports_timestamp b); [left; reflexivity | right; apply orb_true_r].
 Qed.
 
-(* a single cache: remove_all only if configured or the cache has no timestamps *)
-Lemma conf_single init w b T all :
-  conf_tasks init w (conf_all w) [b] = [Some (T, all)] ->
-  (supports_timestamp b = true \/ all = true) /\ (all = true -> w = WAll \/ supports_timestamp b = false).
+(* remove_before is refused exactly for the caches that keep no timestamps *)
+Lemma conf_step_refused init w all b :
+  conf_step init w all b = None <-> (supports_timestamp b = false /\ exists T, w = WBefore T).
 Proof.
-  cbn [conf_tasks]. unfold conf_step. destruct (supports_timestamp b) eqn:Sb.
-  - intros H; inversion H; subst. split; [left; reflexivity|]. intros A. left. destruct w; try discriminate; reflexivity.
-  - destruct w; intros H; inversion H; subst; split; auto.
+  unfold conf_step. destruct (supports_timestamp b); [split; [discriminate | intros [? _]; discriminate]|].
+  destruct w; split; try discriminate; try (intros [_ [T0 E]]; discriminate); intros _.
+  - split; [reflexivity | eexists; reflexivity].
+  - reflexivity.
 Qed.
 
 (* ------------------------------------------------------------------ refuted: what the unrestricted statements would say *)
@@ -590,7 +585,7 @@ Definition m22 (l : Z) : Z * Z := (2, 2).
 (* F15, directory strategy: a tile below a dimension directory, selected level, older than T, survives *)
 Lemma dimension_tiles_survive_dir_refuted :
   exists lay q msize t walked c e,
-    strategy (BFile lay) t = SDir /\ In e c /\ level_dir_named (BFile lay) e = true /\
+    strategy (BFile lay) t = SDir /\ In e c /\
     spec_removed (older_dir (t_T t)) (t_levels t) (t_all t) everywhere msize e = true /\
     In e (cleanup_task (BFile lay) q msize t walked c).
 Proof.
@@ -614,50 +609,6 @@ Proof.
   intros e dim l x y [<-|[]] P. inversion P; subst. reflexivity.
 Qed.
 
-(* tms layout: tiles of level 1 live in "1", the directory that is cleaned is "01" *)
-Lemma tms_low_level_survives_refuted :
-  exists q msize t walked c e,
-    strategy (BFile LTms) t = SDir /\ In e c /\ dim_visible (BFile LTms) e = true /\
-    spec_removed (older_dir (t_T t)) (t_levels t) (t_all t) everywhere msize e = true /\
-    In e (cleanup_task (BFile LTms) q msize t walked c).
-Proof.
-  exists 4, m22, (mkTask [1; 10] 160 false true false), [], [mkEntry (PTile 0 1 1 0) 120 false],
-         (mkEntry (PTile 0 1 1 0) 120 false).
-  repeat split; try reflexivity; left; reflexivity.
-Qed.
-
-(* GeopackageLevelCache: the configuration accepts remove_before (supports_timestamp), the bulk delete then
-   removes nothing although the tile walk of the same cache calls every tile stale *)
-Lemma gpkglevel_remove_before_refuted :
-  exists q msize t c e,
-    supports_timestamp BGpkgLevel = true /\ strategy BGpkgLevel t = SCache /\ In e c /\
-    is_stale BGpkgLevel q (t_T t) e = true /\
-    spec_removed (fun m => stale_walk q (t_T t) (seen_ts BGpkgLevel q m)) (t_levels t) (t_all t) everywhere msize e = true /\
-    In e (cleanup_task BGpkgLevel q msize t [] c).
-Proof.
-  exists 4, m22, (mkTask [2] 160 false true false), [mkEntry (PTile 0 2 1 1) 120 false],
-         (mkEntry (PTile 0 2 1 1) 120 false).
-  repeat split; try reflexivity; left; reflexivity.
-Qed.
-
-(* ... and the tile walk removes a tile of that cache whatever its age *)
-Lemma gpkglevel_walk_removes_newer_refuted :
-  exists q msize t walked c e,
-    strategy BGpkgLevel t = SWalk /\ t_all t = false /\ In e c /\ t_T t < (e_mtime e / q) * q /\
-    ~ In e (cleanup_task BGpkgLevel q msize t walked c).
-Proof.
-  exists 4, m22, (mkTask [2] 160 false false false), [(0, 0, 2)], [mkEntry (PTile 0 2 1 1) 400 false],
-         (mkEntry (PTile 0 2 1 1) 400 false).
-  repeat split; try reflexivity; try (left; reflexivity). vm_compute. intros [].
-Qed.
-
-(* seed/config.py: remove_all set for a cache without timestamps stays set for the caches after it *)
-Lemma conf_remove_all_leak_refuted :
-  exists init bs i T b,
-    nth_error (conf_tasks init WDefault (conf_all WDefault) bs) i = Some (Some (T, true)) /\
-    nth_error bs i = Some b /\ supports_timestamp b = true.
-Proof. exists 1000, [BMbtiles false; BSqlite], 1%nat, 1000, BSqlite. repeat split; reflexivity. Qed.
-
 (* ------------------------------------------------------------------ non-vacuity *)
 
 Definition ex_c : list entry :=
@@ -669,12 +620,12 @@ Definition ex_c : list entry :=
 
 Example ex_dir_remaining :
   strategy (BFile LTc) (mkTask [1] 160 false true false) = SDir /\
-  (forall e, In e ex_c -> is_tile e = true -> dim_visible (BFile LTc) e = true /\ level_dir_named (BFile LTc) e = true) /\
+  (forall e, In e ex_c -> is_tile e = true -> dim_visible (BFile LTc) e = true) /\
   cleanup_task (BFile LTc) 4 m22 (mkTask [1] 160 false true false) [] ex_c
   = [mkEntry (PTile 0 1 1 1) 170 false; mkEntry (PTile 0 2 3 0) 100 false; mkEntry POutside 100 false].
 Proof.
   split; [reflexivity|]. split; [|reflexivity].
-  intros e [<-|[<-|[<-|[<-|[<-|[]]]]]] Ht; try discriminate; split; reflexivity.
+  intros e [<-|[<-|[<-|[<-|[<-|[]]]]]] Ht; try discriminate; reflexivity.
 Qed.
 
 Example ex_cache_remaining :
@@ -709,6 +660,27 @@ Example ex_boundary_differs :
   older_dir 640 641 = false /\ older_sql 4 640 641 = false /\ stale_walk 4 640 641 = true /\
   older_dir 642 641 = true /\ older_sql 4 642 641 = false /\ stale_walk 4 642 641 = true.
 Proof. repeat split; reflexivity. Qed.
+
+(* tms layout: level 1 lives in "1", which is the directory that is cleaned; a foreign directory "01" is not *)
+Example ex_tms_low_level :
+  cleanup_task (BFile LTms) 4 m22 (mkTask [1; 10] 160 false true false) []
+    [mkEntry (PTile 0 1 1 0) 120 false; mkEntry (PTile 0 10 5 7) 120 false; mkEntry (PTile 0 10 5 8) 164 false;
+     mkEntry (PInDir 0 (DPad 1)) 120 false]
+  = [mkEntry (PTile 0 10 5 8) 164 false; mkEntry (PInDir 0 (DPad 1)) 120 false].
+Proof. reflexivity. Qed.
+
+(* per-level geopackage: remove_before is refused; without it everything of the selected levels goes *)
+Example ex_gpkglevel :
+  conf_tasks 1000 (WBefore 77) (conf_all (WBefore 77)) [BGpkgLevel] = [None] /\
+  conf_tasks 1000 WDefault (conf_all WDefault) [BGpkgLevel] = [Some (1000, true)] /\
+  cleanup_task BGpkgLevel 4 m22 (mkTask [2] 1000 true true false) []
+    [mkEntry (PTile 0 2 1 1) 120 false; mkEntry (PTile 0 1 1 1) 120 false] = [mkEntry (PTile 0 1 1 1) 120 false].
+Proof. repeat split; reflexivity. Qed.
+
+(* remove_all of a cache without timestamps does not reach the cache after it *)
+Example ex_conf_no_leak :
+  conf_tasks 1000 WDefault (conf_all WDefault) [BMbtiles false; BSqlite] = [Some (1000, true); Some (1000, false)].
+Proof. reflexivity. Qed.
 
 Example ex_conf_single :
   conf_tasks 1000 (WBefore 77) (conf_all (WBefore 77)) [BSqlite] = [Some (77, false)] /\
